@@ -253,12 +253,154 @@ entity tail is
   port (p : in
 """
 
+ZOO = '''package zoo_pkg is
+  type matrix_t is array (natural range <>, natural range <>) of bit;
+  type word_t is array (natural range <>) of bit_vector;
+  type level_t is (low, mid, high);
+  type dist_t is range 0 to 1000
+    units
+      mm;
+      cm = 10 mm;
+    end units;
+  type cell_t;
+  type cell_ptr is access cell_t;
+  type cell_t is record
+    val : integer;
+    nxt : cell_ptr;
+  end record;
+  type text_file is file of character;
+  constant rows : natural := 2;
+  constant cols : natural := 3;
+  function "+" (l, r : level_t) return level_t;
+  procedure "-" (l, r : level_t);
+  function pick (m : matrix_t; r, c : natural) return bit;
+  alias choose is pick [matrix_t, natural, natural return bit];
+  procedure bump (variable n : inout natural; signal done : out bit);
+end package;
+
+package body zoo_pkg is
+  function "+" (l, r : level_t) return level_t is
+  begin
+    if l = high or r = high then
+      return high;
+    end if;
+    return level_t'succ(low);
+  end function;
+
+  procedure "-" (l, r : level_t) is
+  begin
+    null;
+  end procedure;
+
+  function pick (m : matrix_t; r, c : natural) return bit is
+  begin
+    return m(r, c);
+  end function;
+
+  procedure bump (variable n : inout natural; signal done : out bit) is
+  begin
+    n := n + 1;
+    done <= '1';
+  end procedure;
+end package body;
+
+use work.zoo_pkg.all;
+
+entity zoo is
+  generic (depth : positive := 4; nbits : positive := 8);
+  port (clk, rst : in bit; sel : in level_t; q : out bit_vector(nbits - 1 downto 0); ok : out bit);
+end entity zoo;
+
+architecture mix of zoo is
+  signal mat : matrix_t(0 to rows - 1, 0 to cols - 1);
+  signal words : word_t(0 to depth - 1)(nbits - 1 downto 0);
+  signal lvl : level_t := low;
+  signal span : dist_t := 2 cm;
+  signal tick, flag : bit;
+  constant copy : natural := (rows);
+  constant total : natural := (rows + cols) * 2;
+  shared variable head : cell_ptr;
+  file log : text_file;
+begin
+  with sel select lvl <=
+    low when low,
+    mid + low when mid,
+    high when others;
+
+  tick <= '1' when lvl = high else
+          flag when (lvl) = mid else
+          '0';
+
+  flag <= choose(mat, copy - 1, 0) after 1 ns;
+
+  gen_rows : for r in mat'range(1) generate
+    gen_cols : for c in mat'range(2) generate
+      mat(r, c) <= clk and rst;
+    end generate gen_cols;
+  end generate gen_rows;
+
+  pick_width : if wide : nbits > 4 generate
+    q <= words(0);
+  else narrow : generate
+    q <= (others => '0');
+  end generate pick_width;
+
+  by_level : case depth generate
+    when 1 | 2 =>
+      ok <= '0';
+    when others =>
+      ok <= tick;
+  end generate by_level;
+
+  guarded_blk : block (clk = '1') is
+    generic (w : natural := 1);
+    generic map (w => total);
+    signal local : natural := w;
+  begin
+    local <= total;
+  end block guarded_blk;
+
+  main : process (clk) is
+    variable count : natural := 0;
+    variable cell : cell_ptr;
+    variable ch : character;
+  begin
+    if clk'event and clk = '1' then
+      outer : for i in words'range loop
+        next outer when i = 1;
+        words(i) <= words(i)(nbits - 2 downto 0) & rst;
+        exit outer when count > total;
+      end loop outer;
+      while count < depth loop
+        bump(count, ok);
+      end loop;
+      cell := new cell_t'(val => count, nxt => head);
+      head := cell;
+      assert cell.nxt = null or cell.val >= 0 report "cell " & integer'image(cell.val) severity note;
+      span <= span + 5 mm;
+    end if;
+  end process main;
+
+  reader : process is
+    variable c : character;
+  begin
+    wait until clk = '1' for 10 ns;
+    if not endfile(log) then
+      read(log, c);
+    end if;
+    wait on rst;
+    wait;
+  end process reader;
+end architecture mix;
+'''
+
 DESIGNS = [
     dict(name='records, enumerations, overloaded functions and an operator, over two libraries', valid=True,
          files=[('lib1', 'types_pkg.vhd', TYPES_PKG), ('lib2', 'shape.vhd', SHAPE)]),
     dict(name='component and entity instantiation, generate, block, configuration', valid=True, files=[('lib0', 'tree.vhd', TREE)]),
     dict(name='generic package and instance, protected type, alias, attribute', valid=True, files=[('lib0', 'generic.vhd', GENERIC)]),
     dict(name='combinational processes for the lints', valid=True, files=[('lib0', 'comb.vhd', COMB)]),
+    dict(name='syntax zoo: 2-d and element constraints, physical/access/file types, operator-symbol subprograms, alias with signature, selected/conditional assignment, for/if/case generate, guarded block with generic map, loops with exit/next, allocator, assert, wait forms', valid=True, files=[('lib0', 'zoo.vhd', ZOO)]),
     dict(name='semantic errors', valid=False, files=[('lib0', 'broken_sem.vhd', BROKEN_SEM)]),
     dict(name='syntax errors', valid=False, files=[('lib0', 'broken_syn.vhd', BROKEN_SYN)]),
 ]
@@ -306,3 +448,5 @@ end architecture;
 """
 MUT_DESIGN = dict(name='compact design: package with body, enumeration, entity with generic and ports, instantiation, process with case', valid=True,
                   files=[('lib0', 'mut.vhd', MUT)])
+
+D_RECORDS, D_TREE, D_GENERIC, D_COMB, D_ZOO, D_SEM, D_SYN = DESIGNS
